@@ -410,7 +410,11 @@ class Verifier:
         if fnode.args.vararg is not None:
             frame_locals[fnode.args.vararg.arg] = VTuple([])
         if fnode.args.kwarg is not None:
-            frame_locals[fnode.args.kwarg.arg] = I.fresh(("dict", ("str",), ("any",)), fnode.args.kwarg.arg)
+            if c.params.get(fnode.args.kwarg.arg) == "empty":
+                # the contract restricts itself to calls without extra keyword arguments (so that `**kwargs` can be forwarded to a real callee)
+                frame_locals[fnode.args.kwarg.arg] = I.new_dict([])
+            else:
+                frame_locals[fnode.args.kwarg.arg] = I.fresh(("dict", ("str",), ("any",)), fnode.args.kwarg.arg)
         frame = E.Frame(relpath, ci, frame_locals, None, qual)
         sframe = E.Frame("<spec>", ci, dict(frame_locals), None, "spec")
         sframe.locals.update(ghost_vals)
